@@ -338,7 +338,10 @@ def keys_case(ctx, dn):
         ctx.case = dict(workload="KEYS", kind=kind, directed=directed, delimiter=delim,
                         rows=[render(r, delim) for r in rows])
         try:
-            A = (dn.read_snapshots if reader == "snapshots" else dn.read_interactions)(path, **kw)
+            # keys=True reads the file twice (once for the ids): everything opened for it is closed again
+            with iohelp.recording_opens() as ro:
+                A = (dn.read_snapshots if reader == "snapshots" else dn.read_interactions)(path, **kw)
+            ctx.expect("keys:files-closed", [repr(f) for f in ro.made if not f.closed], [], dict(opened=len(ro.made)))
             B = parse(dn, reader, [render(r, delim) for r in ranked], delim, "#", False, directed)
         except Exception as ex:
             if raised_in_library(ex):
